@@ -169,6 +169,10 @@ class C12(F.PropCheck):
             if rng.random() < 0.8: return k['CALL_SET_VALUE'], new_value(5, ch, t2 | (t1 << 16), [v, rng.choice([0, 10, 60, 255])]), 'srv:setvalue'
             return k['CALL_GROUP_SET_VALUE'], group_value(ch, t2 | (t1 << 16), [v]), 'srv:groupvalue'
         if x < 0.8: return k['CALL_REGISTER_RESULT'], reg_result(rng.choice([None, None, 5, 0, 9])), 'srv:regresult'
+        if rng.random() < 0.5:
+            # a call the dispatcher knows, with a size the srpc gate accepts and random content
+            call, n = rng.choice(k['VALIDSIZES'])
+            return call, bytes(rng.choice([0, 0, 1, 2, 255, rng.getrandbits(8)]) for _ in range(n)), 'srv:other-valid-size'
         call = rng.choice([10, 20, 30, 40, 50, 60, 70, 75, 100, 110, 115, 210, 220, 230, 250, 260, 290, 300, 310, 320, 420, 440, 450, 460, 470, 500, 510,
                            600, 620, 640, 680, 690, 1000, 1010, rng.randrange(0, 1200), rng.getrandbits(32)])
         n = rng.choice([0, 1, 2, 3, 4, 5, 6, 7, 8, 9, 12, 16, 17, 21, 22, 29, 64, rng.randrange(0, 200)])
@@ -343,7 +347,7 @@ class C12(F.PropCheck):
         for o in outs:
             if o[0] == 'EV' and o[1]: cur = o[1][0]; segs[cur] = []
             elif cur is not None: segs[cur].append(o)
-        PRESS = k['PRESS_TIME_MS'] * 1000; NT = k['PRESS_COUNT']
+        PRESS = 5000 * 1000; NT = 10      # the numbers of the property text (5 s, ten toggles), not the constants of the tree
         t = 0; cfgmode = False; srpc = False; reg = False; real = any(e[0] == 'ADV' for e in case.evs)
         # real schedule: state changes are polled after 1 ms steps and handlers burn time (relay switching 10 ms) before the poll
         tol = 30000 if real else 0
@@ -372,10 +376,14 @@ class C12(F.PropCheck):
                 # gaps between consecutive state changes; for a push button the time it stays pressed is not a pause between clicks
                 # (the advanced handler does not time out while the button is down), so only release->press gaps count there
                 idx = range(len(c) - NT, len(c) - 1)
-                if inp['type'] == k['TYPE_MONOSTABLE']: idx = [j for j in idx if dirs[i][j] == 0]
+                if inp['type'] not in (k['TYPE_BISTABLE'], k['TYPE_MOTION']): idx = [j for j in idx if dirs[i][j] == 0]
                 gaps = [c[j + 1] - c[j] for j in idx]
                 if all(g < 2000000 + tol for g in gaps): return True, False
-                if all((g % M32) < 2000000 + tol for g in gaps): wrapped = True
+                # known finding: a pause of (almost) a full period of the 32-bit microsecond counter inside the chain
+                # (the legacy handler measures from the previous change to "active", so the pause may span two gaps)
+                for j in range(len(c) - NT + 1, len(c)):
+                    prev_act = [c[q] for q in range(j) if dirs[i][q] == 1]
+                    if (c[j] - c[j - 1] >= M32 - 2000000) or (prev_act and c[j] - prev_act[-1] >= M32 - 2000000): wrapped = True
             return False, wrapped
         for n, e in enumerate(case.evs):
             kd, ints, data = e[0], e[1], bytes(e[2]); seg = segs.get(n, [])
@@ -417,7 +425,7 @@ class C12(F.PropCheck):
                         okt, wrapped = toggled(tt)
                         if not (okh or okt):
                             why = ('toggle chain only through 32-bit wrap of the gaps [u32-wrap]' if wrapped else
-                                   'no configuration button held for %d ms and no ten quick toggles' % k['PRESS_TIME_MS'])
+                                   'no configuration button held for 5000 ms and no ten quick toggles')
                     else: why = 'event %s' % kd
                     if why: v.append('configuration mode started at t=%d us by event #%d (%s): %s' % (tt, n, kd, why))
                     cfgmode = True; srpc = False; reg = False
